@@ -77,7 +77,7 @@ CHECKS = {
         "assumptions": DB_ASSUME + ["the fleet half of the loop model (how NodeHosts execute requests: dragonboat's ordered config change, start / join / restore rules, data kept across restarts, a removed replica that learns of its removal stops) is an assumption, exercised against real NodeHosts by the agent harness (C18)"],
     },
     "C20": {
-        "lean": ["DrummerVerif.Props.C20"],
+        "lean": ["DrummerVerif.Props.C20", "DrummerVerif.Props.WitnessMisc"],
         "streams": [{"cmd": "kvcodec", "driver": "CodecDriver", "sections": None, "eval_re": r"^case:",
                      "args": {"quick": ["-n", "1500", "-depth", "5"], "thorough": ["-n", "40000", "-depth", "6", "-big"]}}],
         "rule": "kv.KV of the real package: (1) pairs over the length grid {0,1,2,127,128,129,16383,16384,16385,70000}^2 with random byte content, (2) EVERY byte string over the alphabet {00,01,02,7f,80,ff} up to the given depth decoded into a non-empty prior object (exhaustive), (3) random pairs incl. empty key/value, each with three mutated encodings (truncated, bit flipped, suffix appended, over-long varint inserted), (4) encodings of exactly ColferSizeMax-1 and ColferSizeMax bytes; non-trivial = encode cases (each also decoded back, decoded with a suffix and length-checked on the implementation)",
@@ -85,7 +85,7 @@ CHECKS = {
         "trusted": ["16 MiB boundary case is run on the real code only (the model proves the round trip under the exact guard len < ColferSizeMax)"],
     },
     "C15": {
-        "lean": ["DrummerVerif.Props.C15"],
+        "lean": ["DrummerVerif.Props.C15", "DrummerVerif.Props.WitnessMisc"],
         "streams": [{"cmd": "kvsm", "driver": "KvsmDriver", "sections": None, "eval_re": r"^case:", "timeout": 1500,
                      "args": {"quick": ["-n", "25"], "thorough": ["-n", "400"]}}],
         "rule": "the three real test state machines (KVTest, ConcurrentKVTest, DiskKVTest on vfs.NewStrictMem), two replicas per sequence: batches of 1..8 updates over key/value alphabets incl. the empty string, multi-byte UTF-8, JSON-special characters and (on-disk machine) binary strings, applied to both replicas; replica 1 additionally gets lookups / Sync / PrepareSnapshot / SaveSnapshot / Close+Open, and is replaced at random points by a fresh replica restored from replica 0's snapshot; after every step every key is looked up on both replicas and both hashes are taken (compared with the model as equality classes); evaluations = protocol operations; non-trivial = sequences",
@@ -113,14 +113,14 @@ CHECKS = {
         "assumptions": ["dragonboat SyncPropose / SyncRead are linearizable (one atomic DB operation per call)", "turn-level atomicity: interleavings of DB operations INSIDE two concurrent turns are not driven by this harness (PARTIAL, see level note)"],
     },
     "C17": {
-        "lean": ["DrummerVerif.Props.C17"],
+        "lean": ["DrummerVerif.Props.C17", "DrummerVerif.Props.WitnessMisc"],
         "streams": [{"cmd": "apisrv", "driver": "ApiDriver", "sections": None, "eval_re": r"^case:", "timeout": 1500,
                      "args": {"quick": ["-n", "12", "-len", "60"], "thorough": ["-n", "300", "-len", "150"]}}],
         "rule": "the real Drummer service implementation on a real in-process single-replica NodeHost running the real DB; (1) each malformed configuration call (no members, empty application name, empty region specification, region/count lists of different length) is tried in a child process - a child that dies is a fail-stopped replica; (2) sequences of 60 (quick) calls: SubmitChange over 3 shard ids (one in four malformed), SetRegions (one in three malformed), SetBootstrapped, ReportAvailableNodeHost with reports drawn from a membership history, the leader's own ticks and request batches, GetShards / GetNodeHostCollection / GetShardConfigChangeIndexList / GetShardStates (0..2 ids of 4, known or not) / GetDeploymentInfo; every answer is compared with the Lean model; evaluations = calls + probes; non-trivial = sequences",
         "assumptions": ["dragonboat SyncPropose / SyncRead are linearizable: an answer reflects the state at a single point between call and return (PARTIAL for concurrent callers: the correspondence uses sequential calls)"],
     },
     "C19": {
-        "lean": ["DrummerVerif.Props.C19", "DrummerVerif.Bridge.Bridge"],
+        "lean": ["DrummerVerif.Props.C19", "DrummerVerif.Bridge.Bridge", "DrummerVerif.Props.WitnessMisc"],
         "audit": ["DrummerVerif.Props.C19"],
         "streams": [{"cmd": "nhapi", "driver": "NHApiDriver", "sections": None, "eval_re": r"^case:", "timeout": 1500,
                      "args": {"quick": ["-n", "12"], "thorough": ["-n", "400"]}}],
@@ -128,14 +128,14 @@ CHECKS = {
         "assumptions": ["dragonboat SyncGetSession / SyncPropose / SyncRead behave as documented (the facade's transparency is compared against them)"],
     },
     "C18": {
-        "lean": ["DrummerVerif.Props.C18"],
+        "lean": ["DrummerVerif.Props.C18", "DrummerVerif.Props.WitnessMisc"],
         "streams": [{"cmd": "agent", "driver": "AgentDriver", "sections": None, "eval_re": r"^case:", "timeout": 1500,
                      "args": {"quick": ["-reports", "300", "-dispatch", "6"], "thorough": ["-reports", "8000", "-dispatch", "60"]}}],
         "rule": "the real DrummerClient on real in-process NodeHosts against a scripted Drummer gRPC service on loopback. (A) report construction: 1..4 hosted replicas, each with a local membership version 1..20 or pending, Drummer advertising for each shard nothing / one less / equal / more, with and without log info (0..3 records): the pb.NodeHostInfo the scripted Drummer receives is compared with the model; (B) dispatch: batches for 1..3 shards, per shard a launch / kill / launch ... sequence of 1..4 requests (fresh replica id per launch), randomly interleaved across shards, executed by HandleMasterRequests on a real NodeHost: the final running state and erased data of every shard reveal order and at-most-once execution, handling the empty queue again must change nothing; (C) one scripted scenario on four NodeHosts: launch with zipped peers, add with a wrong then the right version, join, delete delivered twice, kill + erase, restart (runs nothing, reports its log), restore, restore without data; evaluations = report cases + batches + scenario steps",
         "assumptions": ["dragonboat's NodeHost API (StartReplica, RequestAddReplica / RequestDeleteReplica with ordered config change, StopReplica, RemoveData, HasNodeInfo) behaves as documented", "infrastructure timeouts (elections, replication) make a scenario step inconclusive, never a violation"],
     },
     "C06": {
-        "lean": ["DrummerVerif.Props.C06"],
+        "lean": ["DrummerVerif.Props.C06", "DrummerVerif.Props.WitnessMisc"],
         "streams": [{"cmd": "porc", "driver": "PorcDriver", "sections": None, "eval_re": r"^case:",
                      "args": {"quick": ["-n", "1500", "-exhaustive", "2"], "thorough": ["-n", "30000", "-exhaustive", "3"]}},
                     # the checker as the checker binary uses it: a log is parsed, then checked (runs against a linearizable register must be accepted)
